@@ -1,7 +1,7 @@
 (* C11 -- power and energy agree across train, consist and locomotive levels. Pinned statements only. *)
 From Coq Require Import Reals List Bool.
 From AltModel Require Import Num Interp Powertrain Loco Consist TrainEnergy SpeedPoints PathGeom Resist Braking TrainStep TrainFull WholeSim.
-From AltProofs Require Import NumR LocoP C08P ConsistP C10P C01P C11P SpeedPointsP PathGeomP BrakingP TrainFullP WholeSimP EndToEndP.
+From AltProofs Require Import NumR LocoP C08P ConsistP C10P C01P C11P SpeedPointsP PathGeomP BrakingP TrainFullP WholeSimP EndToEndP WholeSplitP TimedTraceP.
 Import ListNotations.
 Open Scope R_scope.
 
@@ -118,3 +118,11 @@ Theorem C11_dispatched_train_simulation :
     (0 < k_dt (ts_k st) -> Forall loco_ok (cn_locos con) ->
        Forall loco_ok (cn_locos (snd x')) /\ Forall2 cum_le (cn_locos con) (cn_locos (snd x'))).
 Proof. exact sl_timed_walk_sound. Qed.
+
+(* the structural statement behind the dispatched-train corollaries of C09, C10 and C12: walk_timed_path consists of
+   whole steps (under the path and braking points in force) and braking-point re-computations that leave the train
+   state, its caches, the brake and the consist untouched - nothing else ever modifies the simulation *)
+Theorem C11_dispatched_train_is_whole_steps : forall fuel_bp fuel_steps (net : list LinkR) (tp : TPR) tl rp fmax fb st cache (con : ConsistR) x',
+  sl_timed_walk fuel_bp fuel_steps net tp tl rp fmax fb st cache con = Ok x' ->
+  tw_trace fmax any_step ({| sl_st := st; sl_cache := cache; sl_fb := fb; sl_idx := 0 |}, con) x'.
+Proof. intros fuel_bp fuel_steps net tp tl rp fmax. exact (sl_timed_walk_trace fmax fuel_bp fuel_steps net tp tl rp). Qed.
